@@ -200,14 +200,14 @@ def systems(ctx):
                     out.append([a, b, c])
     ctx.count("three_equations", len(out) - n1)
     n2 = len(out)
-    for _ in range(40000 if ctx.thorough else 6000):
+    for _ in range(120000 if ctx.thorough else 6000):
         k = ctx.rng.randint(1, 12)
         nv = ctx.rng.randint(1, 8)
         d = ctx.rng.choice([1, 2, 2, 3, 4])
         out.append([(rand_tag(ctx.rng, d, nv), rand_tag(ctx.rng, d, nv)) for _ in range(k)])
     ctx.count("random_systems", len(out) - n2)
     n3 = len(out)
-    for _ in range(40000 if ctx.thorough else 6000):
+    for _ in range(120000 if ctx.thorough else 6000):
         out.append(solvable_system(ctx.rng))
     ctx.count("solvable_by_construction", len(out) - n3)
     # corpus first
@@ -251,6 +251,47 @@ def variants(ctx, eqs):
     return vs
 
 
+def order_monitor(ctx):
+    """programs: the verdict of the type-checking phases (accepted, or the kind of error) does not depend on the order of
+    the declarations; cyclic and acyclic declaration graphs (one declaration per line), one random permutation each"""
+    from . import cyc, progs
+    n = 1200 if ctx.thorough else 200
+    base = [cyc.gen_cyclic(ctx.rng)[0] for _ in range(n)]
+    base += [{"mods": {"file:///w/main.oal": s}, "main": "file:///w/main.oal"} for s in
+             ["let d = { 'd d };\nlet r = { a };\nlet a = 'x { b, 'z r };\nlet b = 'y { a };\nres /d on get -> d;\n",
+              "let item = { 'n num };\nlet code = 200;\nlet f x = { 'items [x] };\nlet items = f item;\nres /i on get -> <status=code, items>;\n"]]
+    perm = []
+    for p in base:
+        lines = p["mods"][p["main"]].split("\n")
+        lets = [l for l in lines if l.startswith("let ")]
+        rest = [l for l in lines if not l.startswith("let ")]
+        q = list(lets)
+        ctx.rng.shuffle(q)
+        if q == lets:
+            q.reverse()
+        perm.append({"mods": {p["main"]: "\n".join(q + rest)}, "main": p["main"]})
+    r1 = progs.compile_many(base)
+    r2 = progs.compile_many(perm)
+
+    def verdict(r):
+        if r.get("status") == "ok":
+            return "accepted"
+        if r.get("status") == "error":
+            return "error:%s:%s" % (r.get("phase"), r.get("kind"))
+        return str(r.get("status"))
+    for p, q, a, b in zip(base, perm, r1, r2):
+        ctx.cov["evaluations"] += 1
+        va, vb = verdict(a), verdict(b)
+        if "skipped" in (va, vb):
+            continue
+        if va != vb and not (va.startswith("panic") or vb.startswith("panic") or va.startswith("crash") or vb.startswith("crash")):
+            ctx.violation("the verdict on a program depends on the order of its declarations", {"program": p, "permuted": q}, va, vb)
+        elif va != vb:
+            ctx.violation("one order of the declarations of a program crashes the compiler, another does not", {"program": p, "permuted": q}, va, vb)
+        else:
+            ctx.count("order_" + ("accepted" if va == "accepted" else "rejected"))
+
+
 def check(ctx):
     ctx.proof = core.proof_stage("C07", thorough=ctx.thorough)
     ok, out = core.ensure_runner()
@@ -263,6 +304,14 @@ def check(ctx):
     if ctx.replay:
         import json
         v = json.load(open(ctx.replay))
+        if "permuted" in v["input"]:
+            from . import progs
+            a, b = progs.compile_many([v["input"]["program"], v["input"]["permuted"]])
+            core.log("original: %s / permuted: %s" % ({k: x for k, x in a.items() if k not in ("doc", "yaml")}, {k: x for k, x in b.items() if k not in ("doc", "yaml")}))
+            if (a.get("status"), a.get("kind")) != (b.get("status"), b.get("kind")):
+                ctx.violation("the verdict on a program depends on the order of its declarations", v["input"], a.get("status"), b.get("status"))
+            ctx.cov["evaluations"] = 2
+            return core.finish(ctx)
         syss = [[(parse(l.split()), parse(r.split())) for l, r in v["input"]["equations"]]]
     else:
         syss = systems(ctx)
@@ -333,12 +382,13 @@ def check(ctx):
         elif o.split()[0] != b.split()[0] and b.split()[0] in ("ok", "err"):
             ctx.violation("the verdict changes under permutation of equations / renaming of variables / swapping sides",
                           inp, b.split()[0], o)
+    order_monitor(ctx)
     ctx.cov["rule"] = ("layer L4u: all single equations over 76 tags of depth<=2 on 3 variables; pairs over 14 tags; triples over 7 tags "
                        "(sampled by residue in the quick tier, complete in the thorough tier); random systems (<=12 equations, depth<=4, <=8 variables); "
                        "each multi-equation system also reversed, shuffled, side-swapped and variable-renamed. distinct_nontrivial = distinct systems "
-                       "with more than one equation or a function/property tag.")
+                       "with more than one equation or a function/property tag. Programs: the verdict of random cyclic and acyclic declaration graphs "
+                       "against the same program with its declarations permuted.")
     ctx.cov["distinct_nontrivial"] = ctx.cov["distribution"].get("nontrivial", 0)
-    ctx.assumptions = ["termination of unify itself and completeness (hence order/name independence) are not proved in Coq: C07_full is stated, "
-                       "the proved part is soundness + triangularity + termination of reduce; the rest is carried by this enumeration",
-                       "program-level permutation/renaming of declarations is exercised by the C05/C01 program generator layers"]
+    ctx.assumptions = ["the model is the unifier on explicit equation systems; how programs generate their equations is observed at program level only "
+                       "(order monitor here, the typing tie in C01)"]
     return core.finish(ctx)
